@@ -68,7 +68,7 @@ inline void end_op() { Ctx& c = C(); c.in_op = false; c.scripts.clear(); }
 
 inline void reset_case() {
     Ctx& c = C();
-    c.cur_obj = 0; c.frozen = 0; c.fired = 0; c.scripts.clear();
+    c.cur_obj = 0; for (auto& f : c.frozen_) f = 0; c.fired = 0; c.scripts.clear();
     objs().v.clear();
     objs().v.emplace_back(new gen::Root());
     gen::setup_queues(*objs().v[0]);
@@ -122,20 +122,22 @@ inline void run_case(const std::string& line) {
             } else if (k == "C") {   // copy-construct from const& -> new object, stays on current
                 const gen::Root& src = cur();
                 objs().v.emplace_back(new gen::Root(src)); objs().reg();
+                c.frozen_[(objs().v.size() - 1) & 7] = c.frozen_ref();
                 tok("[C->" + std::to_string(objs().v.size() - 1) + "]");
             } else if (k == "A") {   // A:dst:src  copy-assign
                 int d = atoi(f[1].c_str()), s = atoi(f[2].c_str());
                 if (d < (int)objs().v.size() && s < (int)objs().v.size() && objs().v[d] && objs().v[s]) {
-                    const gen::Root& src = *objs().v[s]; *objs().v[d] = src; tok("[A" + f[1] + "<-" + f[2] + "]");
+                    const gen::Root& src = *objs().v[s]; *objs().v[d] = src; c.frozen_[d & 7] = c.frozen_[s & 7]; tok("[A" + f[1] + "<-" + f[2] + "]");
                 } else tok("[Askip]");
 #if CFG >= 5
             } else if (k == "M") {   // move-construct -> new object
                 objs().v.emplace_back(new gen::Root(std::move(cur()))); objs().reg();
+                c.frozen_[(objs().v.size() - 1) & 7] = c.frozen_ref();
                 tok("[M->" + std::to_string(objs().v.size() - 1) + "]");
             } else if (k == "MA") {  // MA:dst:src move-assign
                 int d = atoi(f[1].c_str()), s = atoi(f[2].c_str());
                 if (d < (int)objs().v.size() && s < (int)objs().v.size() && objs().v[d] && objs().v[s] && d != s) {
-                    *objs().v[d] = std::move(*objs().v[s]); tok("[MA" + f[1] + "<-" + f[2] + "]");
+                    *objs().v[d] = std::move(*objs().v[s]); c.frozen_[d & 7] = c.frozen_[s & 7]; tok("[MA" + f[1] + "<-" + f[2] + "]");
                 } else tok("[MAskip]");
 #endif
             } else if (k == "W") {   // switch driven object
@@ -150,9 +152,11 @@ inline void run_case(const std::string& line) {
                 const gen::Root& src = cur();
                 objs().v.emplace_back(new gen::Root());
                 gen::Root& dst = *objs().v.back();
+                gen::setup_queues(dst);      // circular buffers need a capacity (not part of the archive)
                 if (f[1] == "t") { { boost::archive::text_oarchive oa(ss); oa << src; } boost::archive::text_iarchive ia(ss); ia >> dst; }
                 else { { boost::archive::binary_oarchive oa(ss); oa << src; } boost::archive::binary_iarchive ia(ss); ia >> dst; }
                 objs().reg();
+                c.frozen_[(objs().v.size() - 1) & 7] = c.frozen_ref();
                 tok("[V" + f[1] + "->" + std::to_string(objs().v.size() - 1) + "]");
 #endif
             } else {
